@@ -177,6 +177,66 @@ func (c17World) Run(prop string, ch *zsim.Choices, trace bool) *RunResult {
 			start = end
 		}
 
+		// the other entry points must agree with Cbor2JsonManyObjects on valid input
+		var consoleRef [][]byte
+		start = 0
+		for i, end := range disk.bounds {
+			ev := stream[start:end]
+			start = end
+			if b := cbor.DecodeIfBinaryToBytes(ev); !bytes.Equal(b, lines[i]) {
+				zsim.Fail("C17.entry_points", "DecodeIfBinaryToBytes of a valid event gives %s, Cbor2JsonManyObjects gives %s", clip(b, 200), clip(lines[i], 200))
+			}
+			if str := cbor.DecodeIfBinaryToString(ev); str != string(lines[i]) {
+				zsim.Fail("C17.entry_points", "DecodeIfBinaryToString of a valid event gives %s, Cbor2JsonManyObjects gives %s", clipS(str, 200), clip(lines[i], 200))
+			}
+			var out bytes.Buffer
+			n, err := zerolog.ConsoleWriter{Out: &out, NoColor: true}.Write(ev)
+			// (n is the length of the decoded JSON in the binary build, not len(ev); the
+			// property says nothing about it, so it is not checked)
+			if err != nil || n <= 0 || !bytes.Contains(out.Bytes(), []byte("binary event")) {
+				zsim.Fail("C17.entry_points", "ConsoleWriter.Write of a valid binary event returned (%d, %v) and wrote %s", n, err, clip(out.Bytes(), 200))
+			}
+			consoleRef = append(consoleRef, append([]byte{}, out.Bytes()...))
+		}
+		var all []byte
+		for _, l := range lines {
+			all = append(all, l...)
+		}
+		if b := cbor.DecodeIfBinaryToBytes(stream); !bytes.Equal(b, all) {
+			zsim.Fail("C17.entry_points", "DecodeIfBinaryToBytes of the whole valid stream differs from the concatenation of its events' lines")
+		}
+		// the same entry points used by several goroutines at once (pooled buffers inside)
+		if ch.Chance(1, 2) && len(disk.bounds) > 0 && len(stream) < 8192 {
+			s.ArmDraw([]string{"internal/cbor/", "console.go", "encoder_cbor.go"})
+			var cts []*zsim.Task
+			for t := 0; t < 2+ch.Intn(2); t++ {
+				t := t
+				cts = append(cts, zsim.Spawn(fmt.Sprintf("dec%d", t), func() {
+					st := 0
+					for i, end := range disk.bounds {
+						ev := stream[st:end]
+						st = end
+						if (i+t)%2 == 0 {
+							b := cbor.DecodeIfBinaryToBytes(ev)
+							zsim.Yield("between decode and use")
+							if !bytes.Equal(b, lines[i]) {
+								zsim.Fail("C17.entry_points", "DecodeIfBinaryToBytes used by several goroutines: the result for event %d changed or is wrong: %s, alone %s", i, clip(b, 160), clip(lines[i], 160))
+							}
+						} else {
+							var out bytes.Buffer
+							_, err := zerolog.ConsoleWriter{Out: &out, NoColor: true}.Write(ev)
+							if err != nil || !bytes.Equal(out.Bytes(), consoleRef[i]) {
+								zsim.Fail("C17.entry_points", "ConsoleWriter used by several goroutines: event %d gave (%v) %s, alone %s", i, err, clip(out.Bytes(), 160), clip(consoleRef[i], 160))
+							}
+						}
+					}
+				}))
+			}
+			zsim.Probe("concurrent_decoders")
+			zsim.Join(cts...)
+			s.Disarm()
+		}
+
 		// (a) crash points
 		offsets := map[int]bool{}
 		if len(stream) <= 1200 {
